@@ -371,4 +371,8 @@ def register(_reg, _mt, STD):  # noqa: ANN001
     _extend('C07', [round5.rule_one_field_list])
     _extend('C09', [classes_rules.rule_c16_r5])
     _extend('C20', [agreement.rule_c05_r4])
+    _extend('C08', [round5.rule_callable_name_has_fallback])
+    _extend('C14', [round5.rule_non_init_factories_run])
+    _extend('C16', [round5.rule_specialisations_inherit_dunders, round5.rule_eq_reads_root_origin])
+    _extend('C17', [round5.rule_none_argument_is_nonetype])
     _extend('C20', [rename.rule_c20_r6, rename.rule_c20_r7, round5.rule_style_guard_agrees])
